@@ -1,4 +1,5 @@
 import Frp.Model.Watchdog
+import Frp.Model.Liveness
 /-
   The client's message dispatcher in front of the heartbeat watchdog: who reads the Pongs.
 
@@ -15,6 +16,8 @@ import Frp.Model.Watchdog
                           pm.HandleWorkConn(…)
     handlePong          : Error != "" ⇒ closeSession(); else lastPong = time.Now()     (never waits)
     handleNewProxyResp / handleNatHoleResp : local bookkeeping, return               (never wait)
+                          -- none of handleReqWorkConn / handleNewProxyResp / handleNatHoleResp stores lastPong:
+                          -- `policy` (Frp/Model/Liveness.lean) says which handlers do; frp's is strict
     heartbeatWorker     : every 1 s: time.Since(lastPong) > timeout ⇒ closeSession()
 
   `asyncReq` is how the ReqWorkConn handler is registered (frp: true).  Work connections are numbered in
@@ -29,7 +32,8 @@ namespace Dispatch
 inductive Msg
   | pong (valid : Bool)     -- valid = Error == ""
   | reqWork                 -- ReqWorkConn
-  | other                   -- NewProxyResp / NatHoleResp: the handler returns without waiting for anybody
+  | other (k : Nat)         -- NewProxyResp / NatHoleResp (k = place in registerMsgHandlers): the handler returns
+                            -- without waiting for anybody
 deriving Repr, DecidableEq
 
 inductive Reader
@@ -40,7 +44,11 @@ deriving Repr, DecidableEq
 structure Cfg where
   wd       : Watchdog.Cfg
   asyncReq : Bool           -- ReqWorkConn is registered through msg.AsyncHandler
+  policy   : Liveness.Policy := {}   -- which handlers store lastPong (frp: only handlePong, after its Error branch)
 deriving Repr, DecidableEq
+
+/-- ReqWorkConn's place in the client's registerMsgHandlers -/
+def reqKind : Nat := 0
 
 structure St where
   inbox  : List Msg := []            -- written by the server, not yet returned by ReadMsg
@@ -59,11 +67,15 @@ deriving Repr, DecidableEq
 
 /-- the handler of message `m`, invoked by the read loop at time `t` -/
 def handle (c : Cfg) (s : St) (t : Nat) : Msg → St
-  | .pong v  => { s with wd := Watchdog.step c.wd s.wd t (.beat v) }
+  | .pong v  => { s with wd := Liveness.step c.policy c.wd s.wd t (.beat v) }
   | .reqWork =>
-    if c.asyncReq then { s with flying := s.flying ++ [s.nextW], nextW := s.nextW + 1 }
-    else { s with reader := .waiting s.nextW, nextW := s.nextW + 1 }
-  | .other   => s
+    if c.asyncReq then
+      { s with wd := Liveness.step c.policy c.wd s.wd t (.other reqKind),
+               flying := s.flying ++ [s.nextW], nextW := s.nextW + 1 }
+    else
+      { s with wd := Liveness.step c.policy c.wd s.wd t (.other reqKind),
+               reader := .waiting s.nextW, nextW := s.nextW + 1 }
+  | .other k => { s with wd := Liveness.step c.policy c.wd s.wd t (.other k) }
 
 /-- one step at time `t` -/
 def step (c : Cfg) (s : St) (t : Nat) (l : Lbl) : St :=
